@@ -468,6 +468,47 @@ func (c *Ctx) ruleC10Cycle() {
 	} else {
 		r.Bad("C10-CYCLE-REJECTED", "R5 definition order", "macros are not visited in slice order: the reported error depends on map iteration", where)
 	}
+	// R6: the walk is complete: inside a loop over directives (children of a macro body, the list of macros) the check
+	// leaves early only with an error; a `return f(x)` or `return nil` inside such a loop skips the remaining siblings
+	for _, f := range fns {
+		inspectWithStack(f.Decl.Body, func(n ast.Node, stack []ast.Node) bool {
+			ret, ok := n.(*ast.ReturnStmt)
+			if !ok {
+				return true
+			}
+			var loop *ast.RangeStmt
+			for i := len(stack) - 1; i >= 0; i-- {
+				if _, isLit := stack[i].(*ast.FuncLit); isLit {
+					break
+				}
+				if rs, isRange := stack[i].(*ast.RangeStmt); isRange {
+					loop = rs
+					break
+				}
+			}
+			if loop == nil {
+				return true
+			}
+			t := pk.TypesInfo.TypeOf(loop.X)
+			if t == nil {
+				return true
+			}
+			sl, isSlice := t.Underlying().(*types.Slice)
+			if !isSlice {
+				return true
+			}
+			if nt := namedType(sl.Elem()); nt != prog.ModulePath+"/directive.Directive" && !strings.HasSuffix(types.TypeString(sl.Elem(), nil), "string") {
+				return true
+			}
+			key := fmt.Sprintf("R6 complete walk | %s | return inside the loop over %s", f.Obj.Name(), exprString(loop.X))
+			if definitelyNonNilReturn(pk, ret, stack) {
+				r.Ok("C10-CYCLE-REJECTED", key, "leaves the loop only with a non-nil error", c.pos(ret.Pos()))
+			} else {
+				r.Bad("C10-CYCLE-REJECTED", key, "the check can leave the loop without an error before every element was visited: a PASTE behind it (a cycle through a later sibling) is never examined", c.pos(ret.Pos()))
+			}
+			return true
+		})
+	}
 }
 
 func (c *Ctx) ruleC10Undefined() {
